@@ -14,6 +14,7 @@ import OFV.Proofs.C20
 import OFV.Proofs.C20Files
 import OFV.Proofs.C20Coef
 import OFV.Proofs.C20Coef2
+import OFV.Proofs.C20Coef3
 import OFV.Proofs.C20Mol
 import OFV.Proofs.C20Canon
 import Mathlib.Tactic.NormNum
@@ -155,6 +156,18 @@ theorem coef_contract_imag_int (nt : NumTables) (z : Int)
     (h : lookup nt.pyComplex (natStr z.natAbs ++ ['j']) = some (imagGQ z.natAbs)) :
     CoefOK nt (imagStr z) (imagGQ z) :=
   coefOK_imag_int nt z h
+
+/-- **coef_contract_gauss_int.**  For Gaussian-integer coefficients printed as `(a+bj)` / `(a-bj)` the contract `CoefOK` is
+discharged up to ONE table entry: the text has no white space, square bracket, colon or leading `+`, and the parser is proved
+to hand exactly this text to `complex()` without negation; what remains is `complex("(a+bj)") = a + b i` for the supplied
+table (checked on the real `complex` by the correspondence run) -/
+theorem coef_contract_gauss_int (nt : NumTables) (a b : Int)
+    (h : lookup nt.pyComplex (gaussStr a b) = some (gaussGQ a b)) :
+    CoefOK nt (gaussStr a b) (gaussGQ a b) :=
+  coefOK_gauss_int nt a b h
+
+example : gaussStr 3 (-12) = ['(', '3', '-', '1', '2', 'j', ')'] := by
+  simp [gaussStr, intStr, natStr, toDigitsRev, digitChar]
 
 /-- **molecular_data_attribute_table** (`MolecularData.save` / `load` conventions `None ↦ False ↦ None`, `int(...)`,
 `float(...)`; h5py itself is a contract): `None`, every number (zero included) and every array survive
